@@ -176,6 +176,19 @@ def run(tier):
                    functions=['cat.Box.subs', 'monoidal.Diagram.subs'])
         suite.identity('tensor.Diagram.subs.pairs%s.commutes' % ([str(a) for a, _ in order],), arr(sub.eval()),
                        sub_arr(dd.eval(), order), extra=(x, y, z), functions=['cat.Box.subs'])
+    # a list of pairs is applied in order (sympy's convention, and Tensor.subs'): a replacement may mention a variable
+    # that a later pair replaces
+    chain = [(x, y + 1), (y, 3)]
+    dd2 = (vx >> wy) @ wz
+    sub2 = dd2.subs(chain)
+    suite.fact('tensor.Diagram.subs.chained_pairs.free_symbols', sub2.free_symbols == {z},
+               what='[(x, y + 1), (y, 3)] leaves only z (left: %s)' % sorted(map(str, sub2.free_symbols)),
+               functions=['cat.rsubs', 'cat.Box.subs'])
+    suite.identity('tensor.Diagram.subs.chained_pairs.commutes', arr(sub2.eval()), sub_arr(dd2.eval(), chain), extra=(x, y, z),
+                   functions=['cat.rsubs', 'cat.Box.subs'], what='subs then eval == eval then subs for chained pairs')
+    rc = (Rx(x) >> Rz(x + y)).subs(chain)
+    suite.fact('circuit.subs.chained_pairs.free_symbols', not rc.free_symbols, functions=['cat.rsubs'],
+               what='[(x, y + 1), (y, 3)] on Rx(x) >> Rz(x + y) leaves no symbol (left: %s)' % sorted(map(str, rc.free_symbols)))
     nb = cat.Box('n', cat.Ob('a'), cat.Ob('b'), data=[y, 1])
     suite.fact('cat.Box.subs.pairs.first_var_absent', nb.subs([(x, 1), (y, 2)]).data == [2, 1],
                functions=['cat.Box.subs'])
